@@ -164,3 +164,66 @@ pub trait AppSet {
         ensures f.awaited() ==> is_ext(old(storage).log(), final(storage).log())
             && app_persist_ops(self.apps(), final(storage).log().subrange(old(storage).log().len() as int, final(storage).log().len() as int));
 }
+
+// ---------------- futures combinators (completion conditions) ----------------
+/// When does a (timer-built) future complete?  A leaf is one armed timer; `join` needs both sides,
+/// `select` either side.  map / boxed / fuse do not change the condition.
+pub enum WaitCond {
+    Timer(TimerOp),
+    Both(Box<WaitCond>, Box<WaitCond>),
+    Either(Box<WaitCond>, Box<WaitCond>),
+}
+pub uninterp spec fn cond_of<F>(f: F) -> WaitCond;
+/// a timer future completes exactly when that timer fires
+pub broadcast proof fn axiom_timer_future_cond(f: BoxFuture<'static, ()>)
+    ensures #[trigger] cond_of(f) == WaitCond::Timer(vx_timer_of(f))
+{ admit(); }
+#[verifier::external_body]
+#[verifier::reject_recursive_types(F)]
+pub struct Fuse<F> { _p: core::marker::PhantomData<F> }
+#[verifier::external]
+impl<F: Future> Future for Fuse<F> { type Output = F::Output; fn poll(self: Pin<&mut Self>, _cx: &mut TaskContext<'_>) -> Poll<F::Output> { unimplemented!() } }
+#[verifier::external_body]
+#[verifier::reject_recursive_types(A)]
+#[verifier::reject_recursive_types(B)]
+pub struct Join<A, B> { _p: core::marker::PhantomData<(A, B)> }
+#[verifier::external]
+impl<A: Future, B: Future> Future for Join<A, B> { type Output = (A::Output, B::Output); fn poll(self: Pin<&mut Self>, _cx: &mut TaskContext<'_>) -> Poll<Self::Output> { unimplemented!() } }
+#[verifier::external_body]
+#[verifier::reject_recursive_types(A)]
+#[verifier::reject_recursive_types(B)]
+pub struct Select<A, B> { _p: core::marker::PhantomData<(A, B)> }
+#[verifier::external]
+impl<A: Future, B: Future> Future for Select<A, B> { type Output = (); fn poll(self: Pin<&mut Self>, _cx: &mut TaskContext<'_>) -> Poll<Self::Output> { unimplemented!() } }
+#[verifier::external_body]
+#[verifier::reject_recursive_types(F)]
+#[verifier::reject_recursive_types(U)]
+pub struct MapFut<F, U> { _p: core::marker::PhantomData<(F, U)> }
+#[verifier::external]
+impl<F: Future, U> Future for MapFut<F, U> { type Output = U; fn poll(self: Pin<&mut Self>, _cx: &mut TaskContext<'_>) -> Poll<U> { unimplemented!() } }
+pub mod future {
+    use super::*;
+    verus!{
+    #[verifier::external_body]
+    pub fn join<A: Future, B: Future>(a: A, b: B) -> (r: Join<A, B>)
+        ensures cond_of(r) == WaitCond::Both(Box::new(cond_of(a)), Box::new(cond_of(b)))
+    { unimplemented!() }
+    #[verifier::external_body]
+    pub fn select<A: Future, B: Future>(a: A, b: B) -> (r: Select<A, B>)
+        ensures cond_of(r) == WaitCond::Either(Box::new(cond_of(a)), Box::new(cond_of(b)))
+    { unimplemented!() }
+    }
+}
+pub trait VxFutureExt: Future + Sized {
+    fn boxed<'a>(self) -> (r: BoxFuture<'a, Self::Output>) ensures cond_of(r) == cond_of(self);
+    fn fuse(self) -> (r: Fuse<Self>) ensures cond_of(r) == cond_of(self);
+    fn map<U, G: FnOnce(Self::Output) -> U>(self, g: G) -> (r: MapFut<Self, U>) ensures cond_of(r) == cond_of(self);
+}
+impl<F: Future + Sized> VxFutureExt for F {
+    #[verifier::external_body]
+    fn boxed<'a>(self) -> (r: BoxFuture<'a, Self::Output>) { unimplemented!() }
+    #[verifier::external_body]
+    fn fuse(self) -> (r: Fuse<Self>) { unimplemented!() }
+    #[verifier::external_body]
+    fn map<U, G: FnOnce(Self::Output) -> U>(self, g: G) -> (r: MapFut<Self, U>) { unimplemented!() }
+}
